@@ -9,6 +9,9 @@
  *       MODE   log | raw    log: a copy of the predefined style with logging freeer/keeper installed
  *                           raw: the predefined style object itself (needs HASHER dfl, SIZER -)
  *   insert|upsert|update|ensert K V ORC      ORC: allocator script, 's' succeed 'f' refuse, '-' none
+ *   cbsert K V MODE ORC                      hawk_htb_cbsert with a callback: MODE add  = create (K,V) / replace the stored w by (w+V)%64
+ *                                            in a pair it allocates itself (old pair destroyed), keep = create / return the existing
+ *                                            pair untouched, fail = return HAWK_NULL
  *   delete K | search K | clear | iter | walk N   (walker says STOP at the N-th pair; 0 = never)
  *
  * Keys are ints (4 bytes, kscale 1, klen 4).  Value v is an int array of v%3+1 copies of v
@@ -87,6 +90,26 @@ static void showpair (hawk_gem_t* g, hawk_htb_pair_t* p)
 	else printf("r=%s", errname(g));
 }
 
+/* the hawk_htb_cbserter_t callback of the `cbsert` op (see the header comment of hawk_htb_cbsert in hawk-htb.h) */
+struct cbctx { int mode; unsigned long v; int refused; };
+static hawk_htb_pair_t* cbserter (hawk_htb_t* h, hawk_htb_pair_t* pair, void* kptr, hawk_oow_t klen, void* ctx)
+{
+	struct cbctx* c = (struct cbctx*)ctx; hawk_htb_pair_t* n; unsigned long nv;
+	if (c->mode == 2) return HAWK_NULL;
+	if (!pair) nv = c->v;
+	else
+	{
+		long w;
+		if (c->mode == 1) return pair;
+		w = decval(HAWK_HTB_VPTR(pair), HAWK_HTB_VLEN(pair));
+		nv = ((unsigned long)(w < 0 ? 0 : w) + c->v) % 64;
+	}
+	n = hawk_htb_allocpair(h, kptr, klen, valtab[nv], (nv % 3 + 1) * sizeof(int));
+	if (!n) { c->refused = 1; return HAWK_NULL; }
+	if (pair) hawk_htb_freepair(h, pair);   /* "this callback requires the old pair to be destroyed" */
+	return n;
+}
+
 struct wctx { long n, stop; int first; };
 static hawk_htb_walk_t walker (hawk_htb_t* t, hawk_htb_pair_t* p, void* c)
 {
@@ -126,6 +149,7 @@ int main (int argc, char** argv)
 				if (!strcmp(ss, "plus2")) style.sizer = s_plus2; else if (!strcmp(ss, "fix4")) style.sizer = s_fix4;
 				hawk_htb_setstyle(t, &style);
 			}
+			if (hawk_htb_getstyle(t) != (strcmp(ms, "raw") ? (const hawk_htb_style_t*)&style : ps)) printf("style-mismatch ");
 			printf("r=ok e= "); dump(t);
 		}
 		else if (!t) printf("bad-op\n");
@@ -140,6 +164,16 @@ int main (int argc, char** argv)
 			orc = "";
 			showpair(&gem, p); printf(" e=%s ", evbuf); dump(t);
 		}
+		else if (!strcmp(op, "cbsert") && sscanf(line, "%*s %lu %lu %31s %255s", &x, &y, ms, o) == 4 && x < NK && y < NV)
+		{
+			hawk_htb_pair_t* p; struct cbctx c;
+			c.mode = !strcmp(ms, "keep") ? 1 : !strcmp(ms, "fail") ? 2 : 0; c.v = y; c.refused = 0;
+			orc = (o[0] == '-') ? "" : o;
+			p = hawk_htb_cbsert(t, &keytab[x], sizeof(int), cbserter, &c);
+			orc = "";
+			if (p) showpair(&gem, p); else printf("r=%s", c.refused ? "ENOMEM" : "ECB");
+			printf(" e=%s ", evbuf); dump(t);
+		}
 		else if (!strcmp(op, "delete") && sscanf(line, "%*s %lu", &x) == 1 && x < NK)
 		{
 			int r = hawk_htb_delete(t, &keytab[x], sizeof(int));
@@ -148,7 +182,7 @@ int main (int argc, char** argv)
 		else if (!strcmp(op, "search") && sscanf(line, "%*s %lu", &x) == 1 && x < NK)
 		{
 			hawk_htb_pair_t* p = hawk_htb_search(t, &keytab[x], sizeof(int));
-			showpair(&gem, p); printf(" e=%s n=%lu\n", evbuf, (unsigned long)hawk_htb_getsize(t));
+			showpair(&gem, p); printf(" e=%s n=%lu c=%lu\n", evbuf, (unsigned long)hawk_htb_getsize(t), (unsigned long)hawk_htb_getcapa(t));
 		}
 		else if (!strcmp(op, "clear")) { hawk_htb_clear(t); printf("r=ok e=%s ", evbuf); dump(t); }
 		else if (!strcmp(op, "iter"))
